@@ -78,10 +78,20 @@ def random_ids(rnd, n, style=None):
 
 
 def order_ids(rnd, keys, idmap, order=None):
-    order = order or rnd.choice(['asc', 'desc', 'shuf'])
+    """storage order classes: ascending, descending, random shuffle, and two 'looks sorted' classes that
+    shortcut guards typically get wrong: 'midshuf' (smallest first, largest last, middle shuffled) and 'swap2'
+    (ascending with one adjacent transposition)"""
+    order = order or rnd.choice(['asc', 'desc', 'shuf', 'shuf', 'midshuf', 'swap2'])
     keys = sorted(keys, key=lambda k: idmap[k], reverse=(order == 'desc'))
     if order == 'shuf':
         rnd.shuffle(keys)
+    elif order == 'midshuf' and len(keys) > 3:
+        mid = keys[1:-1]
+        rnd.shuffle(mid)
+        keys = [keys[0]] + mid + [keys[-1]]
+    elif order == 'swap2' and len(keys) > 2:
+        j = rnd.randrange(len(keys) - 1)
+        keys[j], keys[j + 1] = keys[j + 1], keys[j]
     return keys, order
 
 
